@@ -17,34 +17,5 @@ fn k8_rswide_decode() {
     kani::cover!(l == 7);
 }
 
-/// BOUNDED stand-in (C06): RSWide over a bit vector of at most 1 line (512 bits, every content, every length)
-#[kani::proof]
-#[kani::unwind(10)]
-fn b6_rswide_one_line() {
-    let words: [u64; 8] = kani::any();
-    let n: usize = kani::any();
-    kani::assume(n <= 512 && n >= 1);
-    let mut bvm = BitVectorMut::new();
-    let mut w = 0;
-    while w < 8 {
-        let lo = w * 64;
-        if lo < n {
-            let len = if n - lo >= 64 { 64 } else { n - lo };
-            bvm.append_bits(words[w] & lowmask64(len), len);
-        }
-        w += 1;
-    }
-    let rs = RSWide::new(bvm.into());
-    let i: usize = kani::any();
-    kani::assume(i <= n + 1);
-    let mut exp = 0usize;
-    let mut w = 0;
-    while w < 8 {
-        let lo = w * 64;
-        let upto = if i > n { 0 } else if i <= lo { 0 } else if i - lo >= 64 { 64 } else { i - lo };
-        let valid = if n <= lo { 0 } else if n - lo >= 64 { 64 } else { n - lo };
-        exp += (words[w] & lowmask64(valid) & lowmask64(upto)).count_ones() as usize;
-        w += 1;
-    }
-    if i <= n { assert!(rs.rank1(i) == Some(exp)); assert!(rs.rank0(i) == Some(i - exp)); } else { assert!(rs.rank1(i).is_none()); }
-}
+// (the bounded one-line stand-in b6_rswide_one_line was removed: RSWide is proved by the Verus unit `rswide`, and the
+// stand-in exceeded the CBMC time limit)
